@@ -51,7 +51,26 @@ fn d_operand(t: &Tree) -> Result<Operand, String> {
         "num" => Operand::Num(xs[1].as_f64()?),
         "var" => {
             let mut v = DecisionVariable::default();
-            v.id = xs[1].as_u64()?;
+            if let Ok(fields) = xs[1].as_list() {
+                // [id, kind, [lower, upper]?, [substituted value]?, [name]?]
+                v.id = fields[0].as_u64()?;
+                v.kind = fields[1].as_i64()? as i32;
+                if let Some(b) = fields[2].as_list()?.first() {
+                    let b = b.as_list()?;
+                    let mut bound = ommx::v1::Bound::default();
+                    bound.lower = b[0].as_f64()?;
+                    bound.upper = b[1].as_f64()?;
+                    v.bound = Some(bound);
+                }
+                if let Some(s) = fields[3].as_list()?.first() {
+                    v.substituted_value = Some(s.as_f64()?);
+                }
+                if let Some(n) = fields[4].as_list()?.first() {
+                    v.name = Some(n.as_str()?.to_string());
+                }
+            } else {
+                v.id = xs[1].as_u64()?;
+            }
             Operand::Var(v)
         }
         "param" => {
